@@ -86,6 +86,9 @@ CHECKS = {
  'C47': dict(cat='proof', tech='deductive: typestate postconditions (ghost phase) on the real Connection handshake handlers _send_options_message/_handle_options_response/_send_startup_message/_handle_startup_response/_handle_auth_response/_enable_compression/_enable_checksumming/defunct/factory, reply sequences and configurations enumerated as symbolic choices',
              text='Every reply sequence (up to 6 replies; the challenge loop returns to a verified state) x authenticator kind x protocol version is checked against the protocol state machine; compression negotiation over all setting/local/remote/version combinations; factory outcome per handshake state. Wire encoding of the handshake messages is C03/C05.',
              ref='DESIGN.md §4 C47'),
+ 'C18': dict(cat='proof', tech='deductive: postconditions over a ghost page-request log on the real ResultSet.__iter__/next/fetch_next_page/_fetch_all/_enter_list_mode/__getitem__/all and ResponseFuture.result/start_fetching_next_page/_set_result(ROWS)/_set_final_exception, page shapes enumerated as symbolic choices',
+             text='All page-size sequences of up to 4 (thorough 5) pages with 0..2 opaque rows, for iteration, list materialisation, manual fetching and a failing page request. The recursion of ResultSet.next is unrolled (bounded dimension); continuous paging is out of scope.',
+             ref='DESIGN.md §4 C18'),
 }
 
 NA_REASON = {}
